@@ -9,6 +9,7 @@ import json
 import os
 import tempfile
 
+import numpy as np
 import tskit
 
 from harness import common
@@ -67,6 +68,19 @@ def apply(t, ev):
             t.simplify([0, 1], filter_nodes=False)
         elif op == "tree_sequence":
             t.tree_sequence()
+        elif op == "subset_all":
+            t.subset([0, 1, 2, 3], record_provenance=False)
+        elif op == "delete_older":
+            t.delete_older(1.5)
+        elif op == "union_self":
+            t.union(t.copy(), np.arange(4, dtype=np.int32), record_provenance=False)
+        elif op == "set_columns_same":
+            e = t.edges
+            e.set_columns(left=e.left, right=e.right, parent=e.parent, child=e.child)
+        elif op == "deduplicate_sites":
+            t.deduplicate_sites()
+        elif op == "compute_mutation_parents":
+            t.compute_mutation_parents()
         elif op == "copy":
             return "with_index" if t.copy().has_index() else "without_index"
         elif op == "dump_load":
@@ -129,6 +143,18 @@ def model_step(es, idx, ev):
         if has:
             return es, idx, ("ok" if idx == es else "any")
         return (es, list(es), "ok") if srt else (es, idx, "error")
+    if op == "subset_all":
+        return sorted(es), NOIDX, "ok"
+    if op == "delete_older":
+        return [t for t in es if t != 3], idx, "ok"
+    if op == "union_self":
+        return sorted(es), sorted(es), "ok"
+    if op in ("set_columns_same", "deduplicate_sites"):
+        return es, idx, "ok"
+    if op == "compute_mutation_parents":
+        if not has:
+            return es, idx, "error"
+        return es, idx, ("ok" if idx == es else "any")
     if op in ("copy", "dump_load"):
         return es, idx, ("with_index" if has else "without_index")
     raise common.MachineryError(op)
@@ -139,7 +165,8 @@ def events(es):
     evs += [dict(op="truncate", n=n) for n in range(len(es) + 1)]
     if es:
         evs += [dict(op="replace_last", t=t) for t in (1, 2, 3) if t not in es[:-1]]
-    evs += [dict(op=o) for o in ("clear_edges", "drop_index", "build_index", "sort", "clear", "simplify", "tree_sequence", "copy", "dump_load")]
+    evs += [dict(op=o) for o in ("clear_edges", "drop_index", "build_index", "sort", "clear", "simplify", "tree_sequence", "copy", "dump_load",
+                                "subset_all", "delete_older", "union_self", "set_columns_same", "deduplicate_sites", "compute_mutation_parents")]
     return evs
 
 
